@@ -59,6 +59,10 @@ for _p in ("C06", "C07"):
     register(_p, "rounds_evaluate_only_active_designs", "c07_round_histories.py",
              "6 algorithm classes (11 configurations) built by the real constructors on the Test dataset, up to 12 real run_one_step() rounds each: every problem.evaluate call checked against the state at that moment (active designs only, no repeats, batch / full sweep size, sample_count accounting, idle after completion)",
              covers=tuple("C06/%s.evaluating" % a for a in _ALGOS) + ("C06/DecoupledGP.evaluating",))
+for _p in ("C09", "C10", "C11"):
+    register(_p, "region_predicates_history_independence", "c09_region_histories.py",
+             "3 cones x 25 rectangle histories (iterative and plain) and 8 ellipsoid histories, 2 updates each: is_dominated / is_covered / check_dominates on the long-lived regions vs fresh regions built from the bounds now displayed",
+             covers=("C09/Rect.history[", "C09/Ell.history[", "C10/Rect.history[", "C10/Ell.history[", "C11/Rect.history["))
 
 
 def run_for(prop, seed, tier="thorough", only=None):
